@@ -36,7 +36,7 @@ def check_blake2_simd(ctx, progs, rule="lane-eq"):
             try:
                 M.call_fn(fn, [("ptr", "h", 0), ("ptr", "t", 0), ("ptr", "m", 0), variants[lname]])
                 out = simd.lanes(M.load(("ptr", "h", 0), w), w)
-            except simd.Unsupported as e:
+            except (simd.Unsupported, KeyError, IndexError, TypeError, AttributeError, ValueError) as e:
                 ctx.fail(rule, inst, "%s: the vector code could not be evaluated to a value graph (%s)" % (path, e), where=fn.where(), key="%s:%s:eval" % (rule, path))
                 continue
             spec = simd.blake2_F(B, w, h, m, t, [B.const(f[0], w), B.const(f[1], w)], IV, hashes.SIGMA, rounds, R)
